@@ -108,6 +108,8 @@ class Comment(models.Model):
                              related_name="comments")
     author = models.ForeignKey(Author, null=True, on_delete=models.SET_NULL,
                                related_name="comments")
+    # self-referential collection: Comment.replies
+    parent = models.ForeignKey("self", null=True, on_delete=models.SET_NULL, related_name="replies")
 
     class Meta:
         app_label = "vp_djapp"
